@@ -176,7 +176,25 @@ def check(prog, run):
     r = run.rule("S3", "AsyncMap.__anext__ awaits exactly one source item, applies the mapper to it once and lets "
                        "StopAsyncIteration propagate; map_stream returns AsyncMap(source, mapper); subscribe maps the source stream "
                        "with the per-event function", 4)
-    am = prog.get_class(AIO, "AsyncMap")
+    # the adapter is an object with a stateless __anext__, not an async generator: a generator is finalised by the first
+    # exception that passes through a pending __anext__ (a cancelled wait), and the stream then ends with events still to come
+    ms0 = prog.get_func(AIO, "AsyncIORuntime.map_stream")
+    for x in own_nodes(ms0.node):
+        if isinstance(x, ast.Return) and isinstance(x.value, ast.Call):
+            for cal in prog.resolve_call(ms0, x.value):
+                if isinstance(cal.node, ast.AsyncFunctionDef) and any(isinstance(y, ast.Yield) for y in ast.walk(cal.node)):
+                    run.report(r, "%s:AsyncIORuntime.map_stream:async-generator(%s)" % (AIO, cal.name), ms0.where(x),
+                               "map_stream hands back the async generator %s: an exception passing through a pending __anext__ (the consumer "
+                               "cancelling a wait) finalises it, and the response stream ends while the source still has events" % cal.name)
+    if any(isinstance(y, ast.Yield) for y in own_nodes(ms0.node)):
+        run.report(r, "%s:AsyncIORuntime.map_stream:async-generator(map_stream)" % AIO, ms0.where(),
+                   "map_stream is itself a generator: the response stream is finalised by the first exception passing through it")
+    try:
+        am = prog.get_class(AIO, "AsyncMap")
+    except AnalysisError:
+        if run.findings:
+            return
+        raise
     an = am.methods.get("__anext__")
     shapes.require(an is not None, "C17.S3: AsyncMap.__anext__ not found")
     run.looked_at(an)
